@@ -17,7 +17,7 @@ import (
 	sdk "github.com/cosmos/cosmos-sdk/types"
 )
 
-func init() { props["C14"] = runC14 }
+func init() { props["C14"] = func(r *Rec) { runC14(r); recFor(r, "C14") } }
 
 func (h *anteH) randFreezeCfg(nval int) cfgSpec {
 	r := h.r
